@@ -210,3 +210,249 @@ example : annotsWellFormedB [⟨"Path", "id", [], ""⟩, ⟨"Query", "id", [], "
     annotsWellFormedB [⟨"Body", "b", [], ""⟩, ⟨"FormField", "f", [], ""⟩] = false := by decide +kernel
 
 end Gleece.Validate
+
+/-! ### … and exactly those: an error-free verdict establishes every rule (the converse of `commonValidate_complete`) -/
+namespace Gleece.Validate
+
+/-- the exclusion lists of the annotation table are symmetric (regenerated table: @Body / @FormField) -/
+theorem exclusion_symmetric :
+    ∀ r ∈ Gleece.Generated.annotTable, ∀ x ∈ r.2.2.2.2.2.2.1,
+      ∃ r' ∈ Gleece.Generated.annotTable, r'.1 = x ∧ r.1 ∈ r'.2.2.2.2.2.2.1 := by decide +kernel
+
+def countOf (counts : List (String × Nat)) (n : String) : Nat := ((counts.find? (·.1 = n)).map (·.2)).getD 0
+
+theorem countOf_step_self (counts : List (String × Nat)) (n : String) (c : Nat) :
+    countOf (counts.filter (·.1 ≠ n) ++ [(n, c)]) n = c := by
+  unfold countOf
+  have : (counts.filter (·.1 ≠ n)).find? (·.1 = n) = none := by
+    rw [List.find?_eq_none]
+    intro p hp
+    have := (List.mem_filter.1 hp).2
+    simpa using this
+  rw [List.find?_append, this]
+  simp
+
+theorem countOf_step_other (counts : List (String × Nat)) (n m : String) (c : Nat) (h : m ≠ n) :
+    countOf (counts.filter (·.1 ≠ n) ++ [(n, c)]) m = countOf counts m := by
+  unfold countOf
+  rw [List.find?_append]
+  have h1 : (counts.filter (·.1 ≠ n)).find? (·.1 = m) = counts.find? (·.1 = m) := by
+    induction counts with
+    | nil => rfl
+    | cons p t ih =>
+      rw [List.filter_cons]
+      by_cases hp : p.1 = n
+      · have hpm : ¬ p.1 = m := fun e => h (e.symm.trans hp)
+        have hd : (decide (p.1 ≠ n)) = false := by simp [hp]
+        rw [hd]; simp only [Bool.false_eq_true, if_false]
+        rw [List.find?_cons_of_neg (by simpa using hpm)]; exact ih
+      · have hd : (decide (p.1 ≠ n)) = true := by simp [hp]
+        rw [hd]; simp only [if_true]
+        by_cases hm : p.1 = m
+        · rw [List.find?_cons_of_pos (by simpa using hm), List.find?_cons_of_pos (by simpa using hm)]
+        · rw [List.find?_cons_of_neg (by simpa using hm), List.find?_cons_of_neg (by simpa using hm)]; exact ih
+  rw [h1]
+  cases hf : counts.find? (·.1 = m) with
+  | some p => simp
+  | none =>
+    have : ¬ (n = m) := fun e => h e.symm
+    simp [List.find?, this]
+
+
+theorem hasError_err (c : String) : hasError [err c] = true := rfl
+
+/-- what an error-free run of the validator's loop establishes, given that every earlier annotation is counted and
+    every earlier value is remembered -/
+theorem commonValidate_go_sound (source : String) (pre rest : List Annot) (counts : List (String × Nat)) (uniq : List String)
+    (hc : ∀ b ∈ pre, countOf counts b.name > 0) (hu : ∀ b ∈ pre, b.value ∈ uniq)
+    (h : hasError (commonValidate.go source rest counts uniq) = false) :
+    (∀ a ∈ rest, (lookupDef a.name).isSome = true) ∧
+    (∀ a ∈ rest, ∀ d, lookupDef a.name = some d → d.requiresValue = true → a.value.isEmpty = false) ∧
+    (∀ p a q, rest = p ++ a :: q → ∀ d, lookupDef a.name = some d → ∀ x ∈ d.mutuallyExclusive, ∀ b ∈ pre ++ p ++ [a], b.name ≠ x) ∧
+    (∀ p a q, rest = p ++ a :: q → requiresUnique a = true → a.value.isEmpty = false → ∀ b ∈ pre ++ p, b.value ≠ a.value) ∧
+    (∀ a ∈ rest, a.name = "Method" → Gleece.Generated.routeSupportedHttpVerbs.contains a.value = true) ∧
+    (∀ a ∈ rest, a.name = "Response" ∨ a.name = "ErrorResponse" → ∃ n, Gleece.Text.parseUint a.value = some n ∧ n < 4294967296) := by
+  induction rest generalizing pre counts uniq with
+  | nil =>
+    refine ⟨by simp, by simp, ?_, ?_, by simp, by simp⟩
+    · intro p a q hs; cases p <;> simp at hs
+    · intro p a q hs; cases p <;> simp at hs
+  | cons a rest ih =>
+    unfold commonValidate.go at h
+    simp only at h
+    cases hd : lookupDef a.name with
+    | none => rw [hd] at h; simp [hasError, err] at h
+    | some d =>
+      rw [hd] at h
+      simp only [hasError_append, Bool.or_eq_false_iff] at h
+      obtain ⟨⟨⟨⟨⟨⟨⟨_, c2⟩, _⟩, _⟩, c5⟩, c6⟩, c7⟩, hrest⟩ := h
+      -- the counters after this annotation
+      have hself : countOf (counts.filter (·.1 ≠ a.name) ++ [(a.name, ((counts.find? (·.1 = a.name)).map (·.2)).getD 0 + 1)]) a.name > 0 := by
+        rw [countOf_step_self]; omega
+      have hc' : ∀ b ∈ pre ++ [a], countOf (counts.filter (·.1 ≠ a.name) ++ [(a.name, ((counts.find? (·.1 = a.name)).map (·.2)).getD 0 + 1)]) b.name > 0 := by
+        intro b hb
+        by_cases hn : b.name = a.name
+        · rw [hn]; exact hself
+        · rw [countOf_step_other _ _ _ _ hn]
+          rcases List.mem_append.1 hb with hb | hb
+          · exact hc b hb
+          · simp only [List.mem_singleton] at hb; subst hb; exact absurd rfl hn
+      have hu' : ∀ b ∈ pre ++ [a], b.value ∈ uniq ++ [a.value] := by
+        intro b hb
+        rcases List.mem_append.1 hb with hb | hb
+        · exact List.mem_append_left _ (hu b hb)
+        · simp only [List.mem_singleton] at hb; subst hb; simp
+      obtain ⟨i1, i2, i3, i4, i5, i6⟩ := ih (pre ++ [a]) _ _ hc' hu' hrest
+      -- the head's own facts
+      have f2 : d.requiresValue = true → a.value.isEmpty = false := by
+        intro hrv
+        cases hv : a.value.isEmpty with
+        | false => rfl
+        | true => rw [hrv, hv] at c2; simp [hasError, err] at c2
+      have f3 : ∀ x ∈ d.mutuallyExclusive, ∀ b ∈ pre ++ [a], b.name ≠ x := by
+        intro x hx b hb hbx
+        have hany : (d.mutuallyExclusive.any fun x =>
+            decide (countOf (counts.filter (·.1 ≠ a.name) ++ [(a.name, ((counts.find? (·.1 = a.name)).map (·.2)).getD 0 + 1)]) x > 0)) = true := by
+          rw [List.any_eq_true]
+          exact ⟨x, hx, by rw [← hbx]; simpa using hc' b hb⟩
+        unfold countOf at hany
+        rw [hany] at c5
+        simp [hasError, err] at c5
+      have f4 : requiresUnique a = true → a.value.isEmpty = false → ∀ b ∈ pre, b.value ≠ a.value := by
+        intro hreq hne b hb hbv
+        have hr : d.requiresUniqueValue = true := by unfold requiresUnique at hreq; rw [hd] at hreq; exact hreq
+        have : uniq.contains a.value = true := List.contains_iff_mem.2 (hbv ▸ hu b hb)
+        rw [hr, hne, this] at c6
+        simp [hasError, err] at c6
+      have f5 : a.name = "Method" → Gleece.Generated.routeSupportedHttpVerbs.contains a.value = true := by
+        intro hm
+        rw [if_pos hm] at c7
+        cases hcn : Gleece.Generated.routeSupportedHttpVerbs.contains a.value with
+        | true => rfl
+        | false =>
+          rw [hcn] at c7
+          simp only [Bool.false_eq_true, if_false] at c7
+          split at c7 <;> simp [hasError, err] at c7
+      have f6 : a.name = "Response" ∨ a.name = "ErrorResponse" → ∃ n, Gleece.Text.parseUint a.value = some n ∧ n < 4294967296 := by
+        intro hs
+        have hnm : ¬ a.name = "Method" := by rcases hs with e | e <;> rw [e] <;> decide
+        rw [if_neg hnm, if_pos (by simpa using hs)] at c7
+        cases hp : Gleece.Text.parseUint a.value with
+        | none => rw [hp] at c7; simp [hasError, err] at c7
+        | some n =>
+          rw [hp] at c7
+          simp only at c7
+          by_cases hlt : n < 4294967296
+          · exact ⟨n, rfl, hlt⟩
+          · rw [if_neg hlt] at c7; simp [hasError, err] at c7
+      refine ⟨?_, ?_, ?_, ?_, ?_, ?_⟩
+      · intro b hb
+        rcases List.mem_cons.1 hb with rfl | hb
+        · rw [hd]; rfl
+        · exact i1 b hb
+      · intro b hb d' hd' hrv
+        rcases List.mem_cons.1 hb with rfl | hb
+        · rw [hd] at hd'; cases hd'; exact f2 hrv
+        · exact i2 b hb d' hd' hrv
+      · intro p b q hs d' hd' x hx c hcm
+        cases p with
+        | nil =>
+          simp only [List.nil_append, List.cons.injEq] at hs
+          obtain ⟨rfl, _⟩ := hs
+          rw [hd] at hd'; cases hd'
+          exact f3 x hx c (by simpa using hcm)
+        | cons a' p' =>
+          simp only [List.cons_append, List.cons.injEq] at hs
+          obtain ⟨rfl, hs'⟩ := hs
+          exact i3 p' b q hs' d' hd' x hx c (by simpa [List.append_assoc] using hcm)
+      · intro p b q hs hreq hne c hcm
+        cases p with
+        | nil =>
+          simp only [List.nil_append, List.cons.injEq] at hs
+          obtain ⟨rfl, _⟩ := hs
+          exact f4 hreq hne c (by simpa using hcm)
+        | cons a' p' =>
+          simp only [List.cons_append, List.cons.injEq] at hs
+          obtain ⟨rfl, hs'⟩ := hs
+          exact i4 p' b q hs' hreq hne c (by simpa [List.append_assoc] using hcm)
+      · intro b hb hm
+        rcases List.mem_cons.1 hb with rfl | hb
+        · exact f5 hm
+        · exact i5 b hb hm
+      · intro b hb hs
+        rcases List.mem_cons.1 hb with rfl | hb
+        · exact f6 hs
+        · exact i6 b hb hs
+
+
+/-- symmetry, through `lookupDef` (the first row of a name is the one that counts) -/
+theorem exclusion_symmetric_lookup :
+    ∀ r ∈ Gleece.Generated.annotTable, ∀ x ∈ r.2.2.2.2.2.2.1,
+      ((lookupDef x).map fun d => d.mutuallyExclusive.contains r.1) = some true := by decide +kernel
+
+theorem lookupDef_row {n : String} {d : AnnotDef} (h : lookupDef n = some d) :
+    ∃ r ∈ Gleece.Generated.annotTable, r.1 = n ∧ d.mutuallyExclusive = r.2.2.2.2.2.2.1 := by
+  unfold lookupDef at h
+  cases hf : Gleece.Generated.annotTable.find? (·.1 = n) with
+  | none => rw [hf] at h; cases h
+  | some r =>
+    rw [hf] at h
+    obtain ⟨n', ctx, rv, anyP, props, multi, excl, uq⟩ := r
+    simp only [Option.map_some, Option.some.injEq] at h
+    subst h
+    exact ⟨_, List.mem_of_find?_eq_some hf, by simpa using List.find?_some hf, rfl⟩
+
+/-- **an error-free verdict establishes every rule**: with `commonValidate_complete`, the annotation-level validator
+    accepts EXACTLY the lists that satisfy `AnnotsWellFormed` -/
+theorem commonValidate_sound (source : String) (as : List Annot) (h : hasError (commonValidate source as) = false) :
+    AnnotsWellFormed as := by
+  unfold commonValidate at h
+  obtain ⟨s1, s2, s3, s4, s5, s6⟩ := commonValidate_go_sound source [] as [] [] (by simp) (by simp) h
+  refine ⟨s1, s2, ?_, ?_, s5, s6⟩
+  · intro a ha d hd x hx b hb hbx
+    obtain ⟨pb, qb, hsb⟩ := List.append_of_mem hb
+    by_cases hbefore : a ∈ pb ++ [b]
+    · -- a is at or before b: by the symmetry of the table b excludes a's name
+      obtain ⟨r, hr, hrn, hre⟩ := lookupDef_row hd
+      have hsym := exclusion_symmetric_lookup r hr x (hre ▸ hx)
+      cases hdb : lookupDef x with
+      | none => rw [hdb] at hsym; cases hsym
+      | some d' =>
+        rw [hdb] at hsym
+        simp only [Option.map_some, Option.some.injEq] at hsym
+        have hmem : a.name ∈ d'.mutuallyExclusive := by rw [← hrn]; exact List.contains_iff_mem.1 hsym
+        exact s3 pb b qb hsb d' (hbx ▸ hdb) a.name hmem a (by simpa using hbefore) rfl
+    · -- a comes after b: take that occurrence of a
+      have ha' : a ∈ pb ++ b :: qb := hsb ▸ ha
+      have haq : a ∈ qb := by
+        rcases List.mem_append.1 ha' with h1 | h1
+        · exact absurd (List.mem_append_left _ h1) hbefore
+        · rcases List.mem_cons.1 h1 with h2 | h2
+          · exact absurd (by simp [h2]) hbefore
+          · exact h2
+      obtain ⟨p2, q2, hq⟩ := List.append_of_mem haq
+      have hsplit : as = (pb ++ b :: p2) ++ a :: q2 := by rw [hsb, hq]; simp
+      exact s3 (pb ++ b :: p2) a q2 hsplit d hd x hx b (by simp) hbx
+  · intro pre a post hs hreq hne b hb
+    exact s4 pre a post hs hreq hne b (by simpa using hb)
+
+
+/-- **The annotation-level validator reports no error EXACTLY for the lists that satisfy the rules.** -/
+theorem commonValidate_accepts_iff (source : String) (as : List Annot) :
+    hasError (commonValidate source as) = false ↔ AnnotsWellFormed as :=
+  ⟨commonValidate_sound source as, commonValidate_complete source as⟩
+
+/-- … hence the decidable form and the validator agree on every list (what the driver used to only evaluate) -/
+theorem annotsWellFormedB_of_no_error (source : String) (as : List Annot) (h : annotsWellFormedB as = true) :
+    hasError (commonValidate source as) = false :=
+  commonValidate_complete source as (annotsWellFormedB_sound as h)
+
+/-- non-vacuity of the converse: a list the validator rejects for each rule -/
+example : hasError (commonValidate "route" [⟨"Body", "b", [], ""⟩, ⟨"FormField", "f", [], ""⟩]) = true ∧
+    hasError (commonValidate "route" [⟨"FormField", "f", [], ""⟩, ⟨"Body", "b", [], ""⟩]) = true ∧
+    hasError (commonValidate "route" [⟨"Method", "OPTIONS", [], ""⟩]) = true ∧
+    hasError (commonValidate "route" [⟨"Response", "2_00", [], ""⟩]) = true ∧
+    hasError (commonValidate "route" [⟨"Query", "", [], ""⟩]) = true ∧
+    hasError (commonValidate "route" [⟨"Nope", "x", [], ""⟩]) = true := by decide +kernel
+
+end Gleece.Validate
